@@ -149,6 +149,11 @@ SPEC.update({
 OS = O(STR)
 SPEC.update({
     "c19.verify_text": ([STR], "pin_verify_text", R(STR)),
+    "c15.match_decoy": ([B, L(NAT), L(STR), L(STR)], "md_match", R(L(P(STR, STR)))),
+    "c15.match_steps": ([B, L(NAT), L(STR), L(STR)], "md_steps", R(L(P(STR, O(STR))))),
+    "c15.md_key_mods": ([STR], "md_key_mods", STR),
+    "c15.md_key_plain": ([STR], "md_key_plain", STR),
+    "c15.md_sort_strs": ([L(STR)], "md_sort_strs", L(STR)),
     "c11.calibrate_d": ([B, L(Z), L(B), Q], "calibrate_d", R(L(Q))),
     "c10.read_rc": ([B, NAT, NAT, L(STR), OS, OS, OS, OS, OS, B, L(P(L(Z), L(B)))],
                     "(fun ec cr cc cols o1 o2 o3 o4 o5 lb rowsm => pc_read_rc ec cr cc cols (Build_pc_opts o1 o2 o3 o4 o5) lb rowsm)",
@@ -176,7 +181,7 @@ SPEC.update({
                      R(P(L(L(L(Z))), L(L(Z))))),
     "c13.pure": ([NAT, L(Z)], "(fun c l => (ch_chunks c l, ch_ranges c l))", P(L(L(Z)), L(L(NAT)))),
 })
-IMPORTS = "Model.Base Model.Tdc Model.Merge Model.Digest Model.PinTsv Model.Confidence Model.Calibrate Model.Brew Model.PinCols Model.Fs Model.Fdr Model.Peps Model.BrewDecision Model.Strip Model.Picked Model.Grouping Model.Fasta Model.Decoys Model.Pepxml Model.PinVerify Model.CalibrateD Model.Chunks Model.Readers Model.Buffered"
+IMPORTS = "Model.Base Model.Tdc Model.Merge Model.Digest Model.PinTsv Model.Confidence Model.Calibrate Model.Brew Model.PinCols Model.Fs Model.Fdr Model.Peps Model.BrewDecision Model.Strip Model.Picked Model.Grouping Model.Fasta Model.Decoys Model.Pepxml Model.PinVerify Model.CalibrateD Model.Chunks Model.Readers Model.Buffered Model.MatchDecoy"
 
 
 class _Toks:
